@@ -234,7 +234,9 @@ def ghost_call(ex, st, name, e):
         from .ext import ORIENTS, lo_arrays
 
         if name in ("gheight", "gwidth"):
-            return mk_int(ctx.field_array(st, "g_h" if name == "gheight" else "g_w")[args[0].z])
+            gz = ctx.field_array(st, "g_h" if name == "gheight" else "g_w")[args[0].z]
+            ctx.assume(st, gz >= 0)  # a 2-D array has a non-negative height and width
+            return mk_int(gz)
         row, has, val = lo_arrays(ctx, st)
         m = args[0].z
         lv = as_int(ctx, st, args[1], e)
@@ -411,8 +413,10 @@ def builtin_call(ex, st, o, args, kwargs, e):
         if a.k == "conc":
             return mk_int(len(a.z))
         if a.k == "ref" and str(a.x).startswith("grid"):
+            ctx.assume(st, ctx.field_array(st, "g_h")[a.z] >= 0)
             return mk_int(ctx.field_array(st, "g_h")[a.z])
         if a.k == "gridrow":
+            ctx.assume(st, ctx.field_array(st, "g_w")[a.z[0]] >= 0)
             return mk_int(ctx.field_array(st, "g_w")[a.z[0]])
         if a.k == "ref":
             ln = ctx.field_array(st, "len", AII)[a.z]
